@@ -175,6 +175,8 @@ var c01FixedSeeds = map[string]bool{
 	"<<<<24, 23, 0>>, <<26, 25, 7>>, <<15, 8, 0>>>>": true,
 	"<<<<13, 14, 0>>, <<20, 0, 0>>, <<2, 0, 0>>>>":   true,
 	"<<<<3, 12, 4>>, <<2, 0, 0>>, <<14, 9, 19>>>>":   true,
+	"<<<<27, 28, 11>>, <<1, 0, 0>>, <<2, 0, 0>>>>":   true,
+	"<<<<29, 30, 11>>, <<1, 4, 0>>, <<20, 3, 0>>>>":  true,
 }
 
 func checkC01(r *kit.Run) {
